@@ -116,6 +116,13 @@ type pipeSpec struct {
 	split   bool // plain: RestoreFile, a decision point, then format.Node (instead of one Fprint)
 	sameAst bool // managed: every repetition decorates the SAME *ast.File with a fresh Decorator
 	big     string
+	reuseFR bool // managed: the worker restores all its files through ONE FileRestorer (alone: a fresh one per file)
+}
+
+// frState is a worker's reused FileRestorer (concurrent phase only; the reference uses fresh ones).
+type frState struct {
+	fr *decorator.FileRestorer
+	pw *faults.Pkg
 }
 
 // bigSources are the long (>= 600 lines) corpus files that parse cleanly: line tables, fragment
@@ -172,7 +179,11 @@ func errClass(err error) string {
 
 // execPipe runs one pipeline (all its repetitions) and stamps the results with pipe and
 // repetition numbers. y is the decision-point callback (nil in the sequential reference).
-func execPipe(pidx int, p pipeSpec, e env, y func(string), res *[]opResult) {
+func execPipe(pidx int, p pipeSpec, e env, y func(string), res *[]opResult, reuse ...*frState) {
+	var fs *frState
+	if len(reuse) > 0 && p.reuseFR {
+		fs = reuse[0]
+	}
 	var shared *parsed
 	if p.sameAst && p.kind == pipeManagedDecorate {
 		fset := token.NewFileSet()
@@ -184,7 +195,7 @@ func execPipe(pidx int, p pipeSpec, e env, y func(string), res *[]opResult) {
 	}
 	for rep := 0; rep < p.reps; rep++ {
 		from := len(*res)
-		execOnce(p, e, y, res, shared)
+		execOnce(p, e, y, res, shared, fs)
 		for i := from; i < len(*res); i++ {
 			(*res)[i].Pipe, (*res)[i].Rep = pidx, rep
 		}
@@ -196,7 +207,7 @@ type parsed struct {
 	af   *ast.File
 }
 
-func execOnce(p pipeSpec, e env, y func(string), out *[]opResult, shared *parsed) {
+func execOnce(p pipeSpec, e env, y func(string), out *[]opResult, shared *parsed, fs *frState) {
 	yield := func(site string) {
 		if y != nil {
 			y(site)
@@ -257,12 +268,23 @@ func execOnce(p pipeSpec, e env, y func(string), out *[]opResult, shared *parsed
 	*out = append(*out, opResult{Op: "decorate", Out: dump.String(f, dump.Options{})})
 	edits.Apply(f, p.script)
 	yield("op:restore")
-	pw := &faults.Pkg{Inner: e.name, Yield: y}
-	r := decorator.NewRestorerWithImports(LocalPath, pw)
-	r.Extras = p.extras
-	fr := r.FileRestorer()
-	for k, v := range p.alias {
-		fr.Alias[k] = v
+	var pw *faults.Pkg
+	var fr *decorator.FileRestorer
+	if fs != nil && fs.fr != nil {
+		// the worker's own FileRestorer, reused: RestoreFile resets it but leaves Name and Alias alone
+		fr, pw = fs.fr, fs.pw
+		pw.Seen = nil
+	} else {
+		pw = &faults.Pkg{Inner: e.name, Yield: y}
+		r := decorator.NewRestorerWithImports(LocalPath, pw)
+		r.Extras = p.extras
+		fr = r.FileRestorer()
+		for k, v := range p.alias {
+			fr.Alias[k] = v
+		}
+		if fs != nil {
+			fs.fr, fs.pw = fr, pw
+		}
 	}
 	var buf bytes.Buffer
 	err = fr.Fprint(&buf, f)
@@ -426,8 +448,9 @@ func concurrentPhase(run *core.Run, w *workload, cfg sched.Config, fine bool, op
 					step := s.Yield(i)
 					st.trace = append(st.trace, fmt.Sprintf("%06d w%d %s", step, i, site))
 				}
+				fs := &frState{}
 				for j, p := range ps {
-					execPipe(j, p, shared, y, &st.res)
+					execPipe(j, p, shared, y, &st.res, fs)
 				}
 			})
 			if !aborted {
@@ -476,12 +499,26 @@ func runScheduled(run *core.Run) {
 			}
 			ps = append(ps, p)
 		}
+		if t.Bool(1, 3) {
+			// this worker restores all its files through one FileRestorer with one Alias map
+			var alias map[string]string
+			var extras, have bool
+			for j := range ps {
+				if ps[j].kind == pipePlain {
+					continue
+				}
+				if !have {
+					alias, extras, have = ps[j].alias, ps[j].extras, true
+				}
+				ps[j].alias, ps[j].extras, ps[j].reuseFR = alias, extras, true
+			}
+		}
 		w.workers = append(w.workers, ps)
 	}
 	run.Describe("scheduled: %d workers, shared ident resolver %s, shared name resolver %s, failing paths %v, equal sources=%v", nworkers, identKindNames[w.identKind], faults.KindName(w.nameKind), keys(w.failPaths), sameSrc)
 	for i, ps := range w.workers {
 		for j, p := range ps {
-			run.Describe("worker %d pipe %d kind=%d reps=%d extras=%v split=%v sameAst=%v big=%q edits=%v alias=%v src=%d bytes hash %s", i, j, p.kind, p.reps, p.extras, p.split, p.sameAst, p.big, p.script, p.alias, len(p.src), dump.HashString(p.src))
+			run.Describe("worker %d pipe %d kind=%d reps=%d extras=%v split=%v sameAst=%v reuseFR=%v big=%q edits=%v alias=%v src=%d bytes hash %s", i, j, p.kind, p.reps, p.extras, p.split, p.sameAst, p.reuseFR, p.big, p.script, p.alias, len(p.src), dump.HashString(p.src))
 		}
 	}
 
@@ -498,7 +535,7 @@ func runScheduled(run *core.Run) {
 	cfg := sched.Config{Workers: nworkers, Policy: t.Draw(sched.NumPolicies), First: t.Draw(nworkers)}
 	if fine {
 		// roughly 40 instrumented function entries per source byte through decorate+restore
-		total *= 60
+		total *= 300
 	}
 	switch cfg.Policy {
 	case sched.PolicyChangePoints:
